@@ -249,6 +249,15 @@ Theorem C01_generated_expected_response_patterns :
 Proof. vm_compute. reflexivity. Qed.
 Print Assumptions C01_generated_expected_response_patterns.
 
+(* the pattern is read at each use: on a constructed channel whose pattern was already used, the REAL _process_output and
+   the patterns handed to the authentication loops follow the pattern TEXT after it is changed through the driver
+   attribute and through the channel's arguments, sync and asyncio (observed when Gen_Channel.v was generated; the
+   translator also checks by AST that every use compiles self._base_channel_args.comms_prompt_pattern at that use and that
+   no compiled pattern is kept on the channel).  This is what lets [run_segs] give every segment its own configuration. *)
+Theorem C01_generated_pattern_read_at_each_use : gen_pattern_read_at_each_use = true.
+Proof. vm_compute. reflexivity. Qed.
+Print Assumptions C01_generated_pattern_read_at_each_use.
+
 (* a prompt as the vendor prints it, per driver kind: pattern of the constructed driver, text, trailing blank *)
 Definition driver_prompts : list (re * bytes * bytes) :=
   [ (gen_pat_generic, [114;111;117;116;101;114;49;35], []);
@@ -365,4 +374,63 @@ Example C01_example_results :
       Nat.ltb 1000 (length (rs_raw r1)) && Nat.leb (length (w_pending w')) 1
   | _ => false
   end = true.
+Proof. vm_compute. reflexivity. Qed.
+
+(* ---------------------------------------------------------------------------------------------- *)
+(* The prompt pattern may be CHANGED between the operations of a history (conn.comms_prompt_pattern = ... on the open
+   connection, the channel's arguments, update_privilege_levels() after editing a level pattern): the channel reads the
+   pattern text at each use, so every operation runs under the pattern IN FORCE when it is called.  For EVERY list of
+   segments (pattern, operations) - under the conditions of C01_history_concrete taken per segment AGAINST THAT
+   SEGMENT'S PATTERN: the prompt is a prompt of it, the outputs of the segment's operations are quiet under it (what an
+   earlier or a later pattern would read as a prompt is no condition) - every operation of every segment returns, each
+   result is the normalisation of its own command's output, the device executed exactly the lines sent, and the
+   connection stays in step across the changes. *)
+Theorem C01_history_repattern :
+  forall (ansi partial : re) (scan : bool) (d : nat) (ret : bytes) (e : env) (core trail : bytes),
+    is_ret ret -> is_ret (e_nl e) -> e_prompt e = core ++ trail ->
+    forall (segs : list seg) (xs : list xres) (w : world) (k' : nat) (l : list (bytes * bytes)),
+      Inv trail w ->
+      segs_run ansi partial scan d ret e core trail (d_count (w_dev w)) segs xs k' l ->
+      exists (rs : list opres) (w' : world),
+        run_segs (fun r => re_cfg r ansi partial scan d ret) e segs w = (rs, Ok w') /\
+        Inv trail w' /\
+        Forall2 (res_ok core trail) xs rs /\
+        d_count (w_dev w') = k' /\
+        d_log (w_dev w') = d_log (w_dev w) ++ l.
+Proof. exact history_segments. Qed.
+Print Assumptions C01_history_repattern.
+
+(* premises satisfiable by a non-trivial history: the Generic pattern of the tree, then the pattern narrowed to
+   ^router1#\s*$ - under which an output with the lines "RX>" and "Totals:" is inside the domain (under the Generic
+   pattern it is not: both lines read as prompts) - a get_prompt, then the Generic pattern again *)
+Definition rp_narrow : re := (Cat Bol (Cat (Cls [(82, 82); (114, 114)]) (Cat (Cls [(79, 79); (111, 111)]) (Cat (Cls [(85, 85); (117, 117)]) (Cat (Cls [(84, 84); (116, 116)]) (Cat (Cls [(69, 69); (101, 101)]) (Cat (Cls [(82, 82); (114, 114)]) (Cat (Cls [(49, 49)]) (Cat (Cls [(35, 35)]) (Cat (Rep (Cls [(9, 13); (32, 32)]) 0%nat None true) Eol)))))))))).
+Definition rp_out : bytes := [80;111;114;116;32;99;111;117;110;116;101;114;115;10;82;88;62;10;84;111;116;97;108;115;58;10;32;32;53;32;112;97;99;107;101;116;115].          (* "Port counters" / "RX>" / "Totals:" / "  5 packets" *)
+Definition rp_segs : list seg :=
+  [(gen_pat_generic, [OCmd ex_cmd2 false]); (rp_narrow, [OCmd ex_cmd2 true; OPrompt]); (gen_pat_generic, [OCmd ex_cmd2 true])].
+Definition rp_env : env :=
+  mkEnv (policy_ch (PTakes [7; 3; 1; 64]%nat)) (ex_core ++ ex_trail) [13; 10] (script_reply [RPlain []; RPlain rp_out; RPlain ex_done]).
+
+Example C01_repattern_premises :
+  segs_run gen_ansi gen_ansi_partial gen_hold_scan gen_depth gen_ret rp_env ex_core ex_trail 0 rp_segs
+    ([XCmd ex_cmd2 [] false] ++ [XCmd ex_cmd2 rp_out true; XPrompt] ++ [XCmd ex_cmd2 ex_done true] ++ [])
+    3 (([(ex_cmd2, [])] ++ []) ++ ([(ex_cmd2, rp_out)] ++ [] ++ []) ++ ([(ex_cmd2, ex_done)] ++ []) ++ []).
+Proof.
+  econstructor; [vm_compute; reflexivity| |].
+  { econstructor; [|constructor]. apply op_run_cmd_b; [reflexivity|discriminate|reflexivity|vm_compute; reflexivity]. }
+  econstructor; [vm_compute; reflexivity| |].
+  { econstructor; [|econstructor; [constructor|constructor]].
+    apply op_run_cmd_b; [reflexivity|discriminate|reflexivity|vm_compute; reflexivity]. }
+  econstructor; [vm_compute; reflexivity| |constructor].
+  econstructor; [|constructor]. apply op_run_cmd_b; [reflexivity|discriminate|reflexivity|vm_compute; reflexivity].
+Qed.
+
+(* the change matters (that output is outside the domain of the pattern it replaced), and what the model computes *)
+Example C01_repattern_results :
+  (negb (out_okb gen_pat_generic gen_depth ex_core true rp_out) &&
+   match run_segs (fun r => re_cfg r gen_ansi gen_ansi_partial gen_hold_scan gen_depth gen_ret) rp_env rp_segs (world0 [] 0) with
+   | ([PCmd r1; PCmd r2; PPrompt p; PCmd r3], Ok w') =>
+       beq (rs_result r1) ex_core && beq (rs_result r2) (normalise rp_out) && beq p ex_core && beq (rs_result r3) ex_done &&
+       Nat.leb (length (w_pending w')) 1
+   | _ => false
+   end) = true.
 Proof. vm_compute. reflexivity. Qed.
